@@ -1151,6 +1151,8 @@ where
                 }
             });
 
+            #[cfg(mini_moka_verif)]
+            crate::verif::switch(crate::verif::Point::MaintenanceLoopIter);
             if key.is_none() {
                 break;
             }
@@ -1221,6 +1223,8 @@ where
                 }
             });
 
+            #[cfg(mini_moka_verif)]
+            crate::verif::switch(crate::verif::Point::MaintenanceLoopIter);
             if key.is_none() {
                 break;
             }
@@ -1275,6 +1279,8 @@ where
                     entry_info.last_modified(),
                 )
             });
+            #[cfg(mini_moka_verif)]
+            crate::verif::switch(crate::verif::Point::MaintenanceLoopIter);
 
             let (key, ts) = match maybe_key_and_ts {
                 Some((key, false, Some(ts))) => (key, ts),
